@@ -254,7 +254,9 @@ fn run_history<C: CellType>(c: &TapeCheck, v: &mut Verdict) {
                     v.fail("check-allocated", i, format!("op {}: check({}) made the allocator serve a request", i, o));
                     return;
                 }
-                if ok && !near(model.p.wrapping_add(o)) {
+                // (geometric growth may legitimately reach somewhat beyond the cells ever asked for:
+                // the furthest request is 1.6e7 cells out, so nothing beyond 2^30 can be part of a block)
+                if ok && model.p.wrapping_add(o).unsigned_abs() > (1u64 << 30) {
                     v.fail("far-cell-accessible", i, format!("op {}: check({}) reports logical cell {} accessible, which no write or accessibility request ever came near", i, o, model.p.wrapping_add(o)));
                     return;
                 }
